@@ -40,7 +40,8 @@ def c10_1(ctx):
     lens = {"c": 1 + B, "u": 1 + 2 * B, "o": 10, "e": 0, "u+1": 2 + 2 * B, "c-1": B}
     domain = [(p, k) for p in range(256) for k in lens]
     defs = df.single_defs(f.node)
-    bc = {n for n, d in defs.items() if ".p().bit_length()" in norm(d)}      # the coordinate size in bytes
+    # the coordinate size in bytes: a local with a definition from generator.p().bit_length() (whatever it is without a generator)
+    bc = {n for n, ds in df.assignments(f.node).items() if any(isinstance(v, ast.AST) and ".p().bit_length()" in norm(v) for v, _st in ds)}
 
     def evalf(expr, v):
         p, k = v
